@@ -337,45 +337,6 @@ async fn step(w: &mut World, op: &J) -> J {
             let to = ridx(op["to"].as_str().expect("to"));
             json!(w.refresh(f, to).await)
         }
-        "mesh" => {
-            // all ordered pairs, until one whole round reports no_changes everywhere
-            let n = w.qs.len();
-            let mut rounds = 0;
-            let mut quiescent = false;
-            let mut kinds: Vec<String> = vec![];
-            while rounds < 8 && !quiescent {
-                rounds += 1;
-                let mut all_nc = true;
-                for f in 0..n {
-                    for to in 0..n {
-                        if f == to {
-                            continue;
-                        }
-                        let x = w.repl(f, to).await;
-                        let k = x["sup"].as_str().unwrap_or("?").to_string();
-                        if k == "refresh_required" {
-                            // the consumer "must be refreshed": do what the server's automatic refresh does
-                            let rr = w.refresh(f, to).await;
-                            kinds.push(format!("{}>{}:refreshed:{}", NAMES[f], NAMES[to], rr));
-                            all_nc = false;
-                            w.now += 1;
-                            continue;
-                        }
-                        if k != "no_changes" {
-                            all_nc = false;
-                        }
-                        if x["con"].as_str() != Some("ok") || (k != "no_changes" && k != "changes") {
-                            kinds.push(format!("{}>{}:{}/{}", NAMES[f], NAMES[to], k, x["con"].as_str().unwrap_or("?")));
-                        }
-                        w.now += 1;
-                    }
-                }
-                quiescent = all_nc;
-            }
-            advance = false;
-            let _ = advance;
-            json!({"q": quiescent, "rounds": rounds, "odd": kinds})
-        }
         other => {
             eprintln!("TOOL-ERROR unknown op {other}");
             std::process::exit(2);
@@ -511,6 +472,53 @@ pub fn run(o: &Opts) -> i32 {
                         line.insert(k.clone(), v.clone());
                     }
                 }
+            }
+            if op.get("m").is_some() {
+                continue; // exchange lines generated by a mesh (replay files): the mesh regenerates them
+            }
+            if opname == "mesh" {
+                // all ordered pairs, every exchange its own observed line, until one whole round supplies nothing
+                let n = wref.qs.len();
+                let mut rounds = 0;
+                let mut quiescent = false;
+                let mut kinds: Vec<String> = vec![];
+                while rounds < 8 && !quiescent {
+                    rounds += 1;
+                    let mut all_nc = true;
+                    for f in 0..n {
+                        for to in 0..n {
+                            if f == to {
+                                continue;
+                            }
+                            let x = wref.repl(f, to).await;
+                            let k = x["sup"].as_str().unwrap_or("?").to_string();
+                            let con = x["con"].as_str().unwrap_or("?").to_string();
+                            let st = wref.proj().await;
+                            tr.emit(&json!({"op":"repl","from":NAMES[f],"to":NAMES[to],"m":1,"skew":false,"res":x,"st":st,"now":wref.now}));
+                            wref.now += 1;
+                            if k == "refresh_required" {
+                                // the consumer "must be refreshed": do what the server's automatic refresh does
+                                let rr = wref.refresh(f, to).await;
+                                let st = wref.proj().await;
+                                tr.emit(&json!({"op":"refresh","from":NAMES[f],"to":NAMES[to],"m":1,"skew":false,"res":rr,"st":st,"now":wref.now}));
+                                kinds.push(format!("{}>{}:refreshed", NAMES[f], NAMES[to]));
+                                all_nc = false;
+                                wref.now += 1;
+                                continue;
+                            }
+                            if k != "no_changes" {
+                                all_nc = false;
+                            }
+                            if con != "ok" || (k != "no_changes" && k != "changes") {
+                                kinds.push(format!("{}>{}:{}/{}", NAMES[f], NAMES[to], k, con));
+                            }
+                        }
+                    }
+                    quiescent = all_nc;
+                }
+                let st = wref.proj().await;
+                tr.emit(&json!({"op":"mesh","skew":false,"res":{"q": quiescent, "rounds": rounds, "odd": kinds},"st":st,"now":wref.now}));
+                continue;
             }
             wref.last_skew = false;
             let res = step(wref, op).await;
